@@ -210,6 +210,9 @@ def history(rng, machine, n, invalid=0.25, restarts=0.0, slot=0):
     ops = [{"op": "mf_init", "compose": pools.compose(rng, rel)}]
     variants = subset(rng, VARIANTS, 1, 3)
     arches = subset(rng, pools.ARCHES, 1, 3)
+    if rng.random() < 0.25:
+        # any name of the documented table is a legal tree architecture, not only the handful in everyday use
+        arches.append(pick(rng, [a for a in pools.RPM_ARCHES_DOC if a not in ("src", "nosrc")]))
     srpms = []
     memo = []
     path = FILES[machine]
